@@ -181,6 +181,8 @@ def run(ctx):
     _neighbours = configured_neighbours(ctx)  # noqa: F841 - alive until the run ends
     dcases = [c for c in direct_cases(ctx) if ctx.mine()]
 
+    dropped_obs: List[Any] = []
+
     async def direct_batch(cs):
         outs = []
         srv = MCPServer("s")
@@ -202,6 +204,22 @@ def run(ctx):
                     resp, sid = await h.handle_message(msg)
                     sess = h.session_manager.get_session(sid) if sid else None
                     outs.append((case, resp, sid, sess, None))
+                    if sid and sess is not None and k % 3 == 1:
+                        # the record is dropped while the connection lives (expiry sweep, explicit deletion) and the client
+                        # goes on using its session id: whatever the server keeps under that id afterwards still has to
+                        # carry the version this handshake was answered with
+                        answered = sess.protocol_version
+                        if k % 2:
+                            h.session_manager.delete_session(sid)
+                        else:
+                            h.session_manager.cleanup_expired(max_age=-1)
+                        try:
+                            await h.handle_message(parse_message({"jsonrpc": "2.0", "id": f"p{k}", "method": "ping"}), session_id=sid)
+                            await h.handle_message(parse_message({"jsonrpc": "2.0", "method": "notifications/initialized"}), session_id=sid)
+                        except Exception:  # noqa - C08's matter
+                            pass
+                        later = h.session_manager.get_session(sid)
+                        dropped_obs.append((case, sid, answered, None if later is None else later.protocol_version))
                 except Exception as e:  # noqa
                     outs.append((case, None, None, None, e))
             if k % 4 == 0:
@@ -261,6 +279,12 @@ def run(ctx):
             cls = "supported" if (isinstance(req, str) and req in supported) else \
                 "absent" if req == "__absent__" else "nonstring" if case.get("nonstring") else "unsupported"
             ctx.record(case, shape=ans, cls=cls)
+    for case, sid, answered, later in dropped_obs:
+        ctx.count("sessions_dropped_then_used")
+        if later is not None and later != answered:
+            ctx.violation("session_version_differs", f"handshake requesting {case['req']!r} was answered {answered!r}; its session "
+                          f"record was dropped and the client went on using the id: the record now kept under that id carries "
+                          f"{later!r}", dict(case, via="session_dropped_then_used"))
     if ctx.exhaustive is None:
         ctx.exhaustive = ctx.tier == "thorough"
 
